@@ -22,12 +22,13 @@ func init() {
 		Explanation: "Decided (necessary conditions, for every schedule): (R10.1) every access to the registry state (Store.moduleList/nameToModule/nameToModuleCap/typeIDs, ModuleInstance.prev/next), to the engines' compiled-module maps and to a table's keep-alive list happens with the guarding mutex held in a sufficient mode (must-lockset dataflow on SSA, helpers checked at all call sites); " +
 			"(R10.2) the two closed words are atomic values only ever read with Load or changed with CompareAndSwap; (R10.3) every call that releases an instance's resources is control-dependent on a successful CAS of its closed word (close-once, notification-once); " +
 			"(R10.4) every call that reaches Engine.CompileModule or Store.Instantiate from the public API is dominated by a passed runtime-closed check; (R10.5) the registry insert is dominated by the closed-store sentinel test and the name-taken test, delete unlinks and clears both list pointers, closing the store nils list and map. " +
-			"(R10.6) the head of the module list is replaced by m.next only under the test that m is the head, so closing an instance that was never linked (failed registration) leaves the list intact. (R10.7) every insert into a map that a close path sets to nil is dominated by a nil test of that map, so a request that overlaps the close fails with an error instead of panicking (genuine compiler defect found and fixed); (R10.8) the exit path of a call completes an asynchronous close also on the branch taken after a panic (genuine compiler defect found and fixed). NOT decided: linearizability of histories as such (ordering of effects across the several critical sections).",
+			"(R10.6) the head of the module list is replaced by m.next only under the test that m is the head, so closing an instance that was never linked (failed registration) leaves the list intact. (R10.7) every insert into a map that a close path sets to nil is dominated by a nil test of that map, so a request that overlaps the close fails with an error instead of panicking (genuine compiler defect found and fixed); (R10.8) the exit path of a call completes an asynchronous close also on the branch taken after a panic (genuine compiler defect found and fixed). (R10.9) the fields the resource-release function reads are assigned before the instance is registered (known findings: the close notifier and the code closer are assigned after Store.Instantiate returned). NOT decided: linearizability of histories as such (ordering of effects across the several critical sections).",
 		Assumptions: []string{"table of guarded fields → guarding mutex is frozen in checker/props/c10.go from the declarations' comments and confirmed by reading all 60+ access sites"},
 		Rules: []core.Rule{
 			{ID: "R10.6", Template: "T-CONSULT", Text: "the module-list head is moved only for the instance that is the head", Min: 1},
 			{ID: "R10.7", Template: "T-MUSTPASS", Text: "every insert into a map that a close path nils is dominated by a nil test of it (genuine defect found and fixed: wazevo compile overlapping Close panicked)", Min: 3},
 			{ID: "R10.8", Template: "T-SIBLING", Text: "the exit path of a call completes an asynchronous close on every branch, also when the call ended in a panic (genuine compiler defect found and fixed)", Min: 2},
+			{ID: "R10.9", Template: "T-ORDER", Text: "the inputs of the close path (close notifier, code closer, …) are set before the instance is registered (known findings: both are set afterwards)", Min: 1},
 			{ID: "R10.1", Template: "T-LOCKSET", Text: "every read of a guarded field holds its mutex (read or write mode), every write holds it in write mode; constructors writing a freshly allocated object are exempt", Min: 40},
 			{ID: "R10.2", Template: "T-WHOCALLS", Text: "closed words have an atomic type and are only accessed through Load and CompareAndSwap", Min: 2},
 			{ID: "R10.3", Template: "T-MUSTPASS", Text: "every call of the resource-release function is dominated by the success branch of a CAS on the instance's closed word (directly or through a wrapper that returns the CAS result)", Min: 3},
@@ -120,6 +121,7 @@ func runC10(c *core.Ctx) {
 	c.SSA()
 	checkClosedSentinelMaps(c)
 	checkExitPathCompletesClose(c)
+	checkCloseInputsSetBeforePublication(c)
 	// ---------- R10.1 lockset
 	type g struct{ rel, typ, field, muRel, muTyp, mu string }
 	table := []g{
@@ -1114,4 +1116,108 @@ func checkExitPathCompletesClose(c *core.Ctx) {
 			c.Undecided("R10.8", e.name+": deferred exit path of the call entry", 0, "not found")
 		}
 	}
+}
+
+// ---------------------------------------------------------------------------------------------------------
+// R10.9: what the close path consumes (the fields read by the resource-release function) is in place before the instance is
+// registered: a store to such a field of an instance obtained from the registering call happens after other goroutines can
+// already close it (Runtime.Module(name).Close, Runtime.Close), which then miss the notification / code closer.
+
+func checkCloseInputsSetBeforePublication(c *core.Ctx) {
+	wp := c.Pkg("internal/wasm")
+	miNamed := namedIn(c, "internal/wasm", "ModuleInstance")
+	if wp == nil || miNamed == nil {
+		return
+	}
+	st := miNamed.Underlying().(*types.Struct)
+	// fields the release function reads
+	consumed := map[int]bool{}
+	var release *ssa.Function
+	for _, fn := range moduleFns(c, "internal/wasm") {
+		if fn.Name() == "ensureResourcesClosed" && fn.Parent() == nil {
+			release = fn
+		}
+	}
+	if release == nil {
+		c.Undecided("R10.9", "resource-release function", 0, "ensureResourcesClosed not found")
+		return
+	}
+	for _, b := range release.Blocks {
+		for _, in := range b.Instrs {
+			if fa, ok := in.(*ssa.FieldAddr); ok && core.NamedOf(fa.X.Type()) == miNamed && len(release.Params) > 0 && fa.X == release.Params[0] {
+				for _, r := range *fa.Referrers() {
+					if u, ok := r.(*ssa.UnOp); ok && u.Op == token.MUL {
+						consumed[fa.Field] = true
+					}
+				}
+			}
+		}
+	}
+	// the registering calls: functions of internal/wasm that (transitively, depth 2) call registerModule
+	registers := map[*ssa.Function]bool{}
+	for pass := 0; pass < 2; pass++ {
+		for _, fn := range moduleFns(c, "internal/wasm") {
+			for _, b := range fn.Blocks {
+				for _, in := range b.Instrs {
+					if call, ok := in.(*ssa.Call); ok {
+						if sc := call.Common().StaticCallee(); sc != nil && (sc.Name() == "registerModule" || registers[sc]) {
+							registers[fn] = true
+						}
+					}
+				}
+			}
+		}
+	}
+	if len(registers) == 0 {
+		c.Undecided("R10.9", "registering calls", 0, "no caller of registerModule found")
+		return
+	}
+	fromRegistering := func(v ssa.Value) bool {
+		for d := 0; d < 6 && v != nil; d++ {
+			switch x := v.(type) {
+			case *ssa.TypeAssert:
+				v = x.X
+			case *ssa.Extract:
+				v = x.Tuple
+			case *ssa.ChangeInterface:
+				v = x.X
+			case *ssa.MakeInterface:
+				v = x.X
+			case *ssa.Call:
+				if sc := x.Common().StaticCallee(); sc != nil && registers[sc] {
+					return true
+				}
+				return false
+			default:
+				return false
+			}
+		}
+		return false
+	}
+	n := 0
+	for _, fn := range moduleFns(c, "", "internal/wasm") {
+		if registers[fn] {
+			continue
+		}
+		for _, b := range fn.Blocks {
+			for _, in := range b.Instrs {
+				sto, ok := in.(*ssa.Store)
+				if !ok {
+					continue
+				}
+				fa, ok := sto.Addr.(*ssa.FieldAddr)
+				if !ok || core.NamedOf(fa.X.Type()) != miNamed || !consumed[fa.Field] {
+					continue
+				}
+				if !fromRegistering(fa.X) {
+					continue
+				}
+				n++
+				c.Violate("R10.9", "ModuleInstance."+st.Field(fa.Field).Name()+" is set in "+core.SSAFuncName(fn)+" before the instance is registered", sto.Pos(),
+					"the field is read by the close path ("+release.Name()+") and is assigned to an instance returned by the registering call, i.e. after Runtime.Module / Runtime.Close can already reach and close it: that close runs without it (no close notification / compiled code not released), and the plain write races with the close path's read")
+			}
+		}
+	}
+	c.Count("close_inputs_set_after_publication", n)
+	c.Discharge("R10.9", "fields consumed by the close path are otherwise set before registration", release.Pos(), fmt.Sprintf("%d consumed fields, %d registering functions scanned", len(consumed), len(registers)))
 }
